@@ -292,6 +292,8 @@ def trace_props(op, why):
         return {"C11", "C12", "C03"}
     if n == "disjoint":
         return {"C13", "C18"} if op.get("unchecked") else {"C13"}
+    if n in ("eq_clone", "s_eq_clone"):
+        return {"C14", "C15"}
     if n == "s_iter":
         return {"C09"}
     if n == "s_into_iter":
@@ -338,6 +340,9 @@ def trace_job(pid, tier, seed, job, bins, tag, jkey):
         shutil.rmtree(os.path.join(d, "states"), ignore_errors=True)
         if q.returncode == 124:
             raise ToolError("TLC timed out validating a trace (%s)" % tag)
+        if "TLC threw an unexpected exception" in q.stdout or "Parsing or semantic analysis failed" in q.stdout:
+            # not a verdict about the code: the trace specification could not evaluate the recorded events
+            raise ToolError("TLC could not evaluate the trace specification (%s): %s" % (tag, q.stdout[-1800:]))
         m = re.search(r"depth of the complete state graph search is (\d+)", q.stdout)
         depth = int(m.group(1)) if m else 0
         accepted = "No error has been found" in q.stdout and depth - 1 == nev and not crashed
@@ -532,6 +537,7 @@ def jobs_for(pid, tier):
     # one long history in a container of capacity 300 (slot indices beyond one byte)
     tbig = [dict(trace("trace-big", "map"), runs=(1 if q else 3), steps=(1500 if q else 2500), caps=[300], classes=400,
                  profiles=(["release"] if q else ["debug", "release"]))]
+    tbigset = [dict(tbig[0], tag="trace-bigset", mode="set", steps=(700 if q else 1500))]
     qcaps = [(2, 3), (3, 2), (0, 2), (2, 0)]
     tcaps = [(2, 3), (3, 2), (0, 2), (2, 0), (0, 0), (1, 1), (2, 2), (3, 3), (3, 4), (4, 3), (4, 4), (2, 4), (4, 2)]
     core = both("core", ["core"])
@@ -561,7 +567,7 @@ def jobs_for(pid, tier):
         "C19": both("fmt", ["fmt", "cursor"]) + core + setcore
                + ([J("fmt-n3", ["fmt"], consts={"Caps": [3], "Vers": [0], "Vals": [0]}), J("setfmt-n3", ["fmt"], mode="set", consts={"Caps": [3], "Vers": [0]})] if q else []),
         "C08": pairs("alg", ["algebra"], "set", qcaps if q else tcaps),
-        "C14": pairs("eqset", ["eq"], "set", qcaps if q else tcaps) + pairs("eqmap", ["eq"], "map", qcaps[:2] if q else tcaps[:9]),
+        "C14": tbigset + pairs("eqset", ["eq"], "set", qcaps if q else tcaps) + pairs("eqmap", ["eq"], "map", qcaps[:2] if q else tcaps[:9]),
         "C15": shaped(both("clone", ["clone"])) + both("setclone", ["clone"], mode="set"),
         "C20": both("serde", ["serde"]) + both("setserde", ["serde"], mode="set"),
         "C06": shaped(core) + both("cursor", ["cursor"]) + both("efdc", ["entry", "fmt", "disjoint", "clone", "unchecked"], consts={"Vers": [0]})
@@ -641,8 +647,15 @@ def run_check(pid, tier, seed):
         summary["nostd_probe"] = info
         failures.extend(fl)
     gate = GATES.get(pid, {pid, "CRASH"}) | {"SPEC"}
-    # (a rejected trace event is attributed exactly; the widened gates apply to replayed transitions only)
-    mine = [ex for props, ex in failures if (props & gate if not ex.get("trace") else pid in props)]
+    # (a rejected trace event is attributed exactly; the widened gates apply to replayed transitions only;
+    #  but a rejection that no check running this very trace job would report is never dropped silently)
+    def orphan(props, ex):
+        jk = ex.get("jobkey")
+        for other in props:
+            if any(job_key(j) == jk for j in (jobs_for(other, tier) or [])):
+                return False
+        return True
+    mine = [ex for props, ex in failures if (props & gate if not ex.get("trace") else (pid in props or orphan(props, ex)))]
     # a recorded (not repaired) genuine defect is a finding, not an alarm to keep raising
     known = known_sites(pid)
     if known and mine:
